@@ -326,7 +326,10 @@ def body(r):
         its = sorted({o[4] for o in ops if o[4] >= 0})
         want = set(its[:1] + its[-1:])
         for o in ops:
-            if o[4] in want:
+            # bytecodes without a source line are the clean-up code CPython runs when it closes the yield_sample
+            # generator from a finaliser; an exception raised there is swallowed by the interpreter ("Exception
+            # ignored in"), so no handler can exit from it: not an instant the property can speak about
+            if o[4] in want and o[2] is not None:
                 w = dict(rj["world"])
                 w["plan"] = [{"inc": 0, "kind": "signal", "signum": 15, "opcode_event": o[0]}]
                 w["note_resume_sha"] = True
